@@ -449,9 +449,70 @@ func randField(r *rand.Rand, e gen.Env) field {
 
 func pick20(r *rand.Rand, xs ...string) string { return xs[r.Intn(len(xs))] }
 
+type c20Inner struct{ n int }
+
+func (x c20Inner) String() string { return c20Logger.Msg("").Int("entry", x.n).Bool("last", x.n%2 == 0).ToString() }
+
+func c20Concurrent(t *c20, n int) {
+	c := t.c
+	c.Eval()
+	const workers = 12
+	type bad struct {
+		n         int
+		got, want string
+	}
+	res := make(chan bad, workers)
+	for w := 0; w < workers; w++ {
+		go func(w int) {
+			var b bad
+			for i := 0; i < n; i++ {
+				var got, want string
+				v := w*1_000_000 + i
+				if w%2 == 0 {
+					in := c20Inner{v}
+					got = c20Logger.Msg("outer").Stringer(in).Int("after", v).ToString()
+					want = c20Prefix + " \"outer\" " + c20Prefix + fmt.Sprintf(" entry=%d last=%v", v, v%2 == 0) + fmt.Sprintf(" after=%d", v)
+				} else {
+					got = c20Logger.Msg("plain").Int("n", v).String("s", "abc").Uint16("u", uint16(i)).ToString()
+					want = c20Prefix + fmt.Sprintf(" \"plain\" n=%d s=\"abc\" u=%d", v, uint16(i))
+				}
+				if got != want {
+					if b.n++; b.got == "" {
+						b.got, b.want = got, want
+					}
+				}
+			}
+			res <- b
+		}(w)
+	}
+	total, got, want := 0, "", ""
+	for w := 0; w < workers; w++ {
+		b := <-res
+		if total += b.n; got == "" {
+			got, want = b.got, b.want
+		}
+	}
+	if total > 0 {
+		c.Viol("fmt:concurrent-lines", fmt.Sprintf("%d of %d lines rendered by %d goroutines at once differ from their reference; first:\n got  %q\n want %q", total, workers*n, workers, got, want), map[string]any{"goroutines": workers, "lines_each": n})
+		return
+	}
+	c.Obs("lines_rendered_concurrently", int64(workers*n))
+	c.Class("concurrent lines")
+}
+
 func runC20(c *wk.Ctx) {
 	t := &c20{c: c}
 	e := gen.DefaultEnv()
+	if os.Getenv("VERIF_PART") == "concurrent" {
+		// second run of the check, built with the race detector: only the concurrent rendering, whose lines are compared as
+		// always while the detector watches the line pool (a line handed to a second owner while the first still writes to it)
+		for round := int64(0); round < c.N(6, 60); round++ {
+			t.idx = 9_000_000 + round
+			c.Begin(t.idx, "fastlog-concurrent", nil)
+			c20Concurrent(t, 10_000)
+		}
+		return
+	}
 	next := func() bool {
 		t.idx++
 		ok := c.Mine(t.idx)
@@ -607,6 +668,13 @@ func runC20(c *wk.Ctx) {
 				f = fIPArray("addrs", ips)
 			}
 			t.overflow(fill, f, "array-at-fill-level")
+		}
+	}
+	// (4b) lines rendered by several goroutines at once (the packet loop logging while API callers render hosts and entries),
+	// plain and nested (a Stringer field renders its own line while the outer one is open): every string equals its reference
+	for round := int64(0); round < c.N(8, 96); round++ {
+		if next() { // (rounds are cases of their own: a round costs about half a CPU second, the hang watchdog allows five)
+			c20Concurrent(t, 60_000)
 		}
 	}
 	// (5) String()/FastLog of valid views and table entries
